@@ -770,6 +770,19 @@ def shrink_string(kb, target, case, still_fails):
                     break
             if changed:
                 break
+    # shorten the digit strings of numeric escapes
+    for i in range(len(parts)):
+        for j in range(len(parts[i][1])):
+            k, v = parts[i][1][j]
+            while k in ("o", "x") and len(v) > 1:
+                for cand_v in (v[1:], v[:-1]):
+                    cand = [(p, list(it)) for p, it in parts]
+                    cand[i][1][j] = (k, cand_v)
+                    if still_fails(cand):
+                        parts, v = cand, cand_v
+                        break
+                else:
+                    break
     return parts
 
 
